@@ -41,7 +41,8 @@ StepLRows(e) ==
        Report(e.case, LumaRowFails(Types[e.to], e.rows[i]),
               [ev |-> "lrows", from |-> e.from, to |-> e.to, ch |-> e.ch, fix |-> e.fixes[i], lumas |-> e.rows[i]])
   /\ LumaDrift(e)
-StepPanic(e) == e.ev = "panic"
+\* a library call of this case panicked: the property promises a result for every input of its domain
+StepPanic(e) == e.ev = "panic" /\ Report(e.case, {"library_call_panicked"}, [msg |-> e.msg, loc |-> e.loc])
 
 Next == /\ l <= NRec
         /\ LET e == Rec[l] IN StepCase(e) \/ StepGraph(e) \/ StepPair(e) \/ StepLRows(e) \/ StepPanic(e)
